@@ -35,6 +35,7 @@ func init() {
 		ruleUpdateLoop(c, "C01-R4")
 		ruleCaptureBeforeProject(c, "C01-R5")
 		ruleMainToShadow(c, "C01-R5", "C01-R5", "C01-R5")
+		ruleEmptyPut(c, "C01-R5")
 		c.Rule("C01-R7", "INDIRECT: raw-read mode only in read-only snapshot transactions (aliasing corrupts merges); snapshot names sort chronologically (peers take the last name as an instance's newest)")
 		ruleRawReadWriters(c, "C01-R7")
 		ruleNameLayout(c, "C01-R7")
@@ -44,7 +45,7 @@ func init() {
 	})
 
 	register("C02", propMeta{
-		Explanation: staticNote + "Extracts the complete decision table of the merge routine (every SSA path of NativeIterator.Merge with addHeader and all small helpers inlined: conditions over timestamps, values, flags, format version, cutoff; outcomes keep-the-parameter / drop / assembled header+value) and checks the algebraic laws of the property on that table for representatives of every cell of the finite ordering domain (timestamps incl. 0, values incl. empty, deleted flag, format versions 1..3, raw flag bits, every constant the table compares with). Only the extracted conditions and outcome terms are interpreted. Adequacy (the routine touches these quantities only through evaluable comparisons) is checked: any unrecognised use fails as undecided. Further (R8): strategy.Update merges every key the iterator yields against exactly the value stored under it in the same transaction (no path bypasses the lookup) and applies only that decision.",
+		Explanation: staticNote + "Extracts the complete decision table of the merge routine (every SSA path of NativeIterator.Merge with addHeader and all small helpers inlined: conditions over timestamps, values, flags, format version, cutoff; outcomes keep-the-parameter / drop / assembled header+value) and checks the algebraic laws of the property on that table for representatives of every cell of the finite ordering domain (timestamps incl. 0, values incl. empty, deleted flag, format versions 1..3, raw flag bits, every constant the table compares with). Only the extracted conditions and outcome terms are interpreted. Adequacy (the routine touches these quantities only through evaluable comparisons) is checked: any unrecognised use fails as undecided. Further (R8): strategy.Update merges every key the iterator yields against exactly the value stored under it in the same transaction (no path bypasses the lookup) and applies only that decision. Every KV.Unmarshal decodes into a zero KV (fresh local or overwritten with the zero value, followed through pointer parameters to the callers); remote entries are merged with the iterator arguments of the load (no default timestamp).",
 		NotDecided:  "LMDB writes themselves; stored values whose header does not parse (error path); deleted entries carrying a value (outside the schema); commutativity across a non-zero stale-marker cutoff (documented retention assumption; the drop rule itself is checked).",
 		Assumptions: []string{"header.Parse returns what PutBasic wrote (structure checked under C14)", "deleted entries carry an empty value (schema)"},
 	}, func(c *Check) {
@@ -119,6 +120,7 @@ func init() {
 		}
 		ruleUpdateLoop(c, "C03-R8")
 		c.Rule("C03-R9", "INDIRECT: the two-sided walk visits every stored key also for an empty input (Clean for emptied DBIs); remote entries are merged with default timestamp 0 and the load-time cutoff")
+		ruleEmptyPut(c, "C03-R9")
 		ruleIterBoth(c, "C03-R9", "C03-R9", "C03-R9")
 		ruleLoadBody(c, "C03-R9", "C03-R9", "C03-R9", "C03-R9", "C03-R9")
 	})
@@ -163,7 +165,7 @@ func init() {
 	})
 
 	register("C05", propMeta{
-		Explanation: staticNote + "Decides the ordering and guard conditions that keep published data in the bucket: (R1) every SendOnce in syncLoop is behind !HasSnapshots (start-up) or behind Contains(ownInstanceID) == false; (R2) the waiting set is filled from SeenInstances() after a successful RunOnce(ctx, true) and instances are removed only when their update is loaded; (R3) the listing that fills it includes the own instance; (R4) SendOnce returns success only after a successful Store (retry loop shape; zero iterations excluded by configuration validation); (R5) the cleaner is told what is merged only after a successful Store, from a map written only after a committed merge; (R6) a failing SendOnce/LoadOnce leaves the loop; (R7) the cleaner's delete rules (C12). Further: Config.Check establishes storage_retry_count >= 1 on every accepting path (otherwise the store loop runs zero times and SendOnce reports success).",
+		Explanation: staticNote + "Decides the ordering and guard conditions that keep published data in the bucket: (R1) every SendOnce in syncLoop is behind !HasSnapshots (start-up) or behind Contains(ownInstanceID) == false; (R2) the waiting set is filled from SeenInstances() after a successful RunOnce(ctx, true) and instances are removed only when their update is loaded; (R3) the listing that fills it includes the own instance; (R4) SendOnce returns success only after a successful Store (retry loop shape; zero iterations excluded by configuration validation); (R5) the cleaner is told what is merged only after a successful Store, from a map written only after a committed merge; (R6) a failing SendOnce/LoadOnce leaves the loop; (R7) the cleaner's delete rules (C12). Further: Config.Check establishes storage_retry_count >= 1 on every accepting path (otherwise the store loop runs zero times and SendOnce reports success). Every retry of the store loop carries the non-nil Store failure in the variable that is tested after the loop (running out of retries cannot look like success); the unordered listing of seen instances is consumed only by order-independent operations in CleanDisappeared.",
 		NotDecided:  "Crash points and storage fault sequences as such; the cleaners of other instances.",
 		Assumptions: []string{"simpleblob.Store is atomic per blob", "hooks are nil by default"},
 	}, func(c *Check) {
@@ -208,6 +210,7 @@ func init() {
 		ruleNameLayout(c, "C06-R7")
 		ruleSanitiser(c, "C06-R7")
 		c.Rule("C06-R8", "INDIRECT: raw-read mode only in the read-only snapshot transaction; header.Parse/Skip split header and application value correctly for every extension count")
+		ruleRawReadRestored(c, "C06-R8")
 		ruleRawReadWriters(c, "C06-R8")
 		ruleParseTable(c, "C06-R8")
 	})
@@ -231,6 +234,8 @@ func init() {
 		ruleSyncedIdBound(c, "C09-R5")
 		ruleSendDump(c, "C09-R5", "C09-R5", "C09-R5")
 		c.Rule("C09-R6", "CAPTURE-COMPLETE: in shadow mode every application DBI is captured unconditionally before the dump (an emptied DBI included)")
+		// an instance does not publish before it has merged its own newest snapshot: that download is retried
+		ruleRetryAndNotify(c, "C09-R6")
 		ruleMainToShadow(c, "C09-R6", "C09-R6", "C09-R6")
 	})
 
@@ -363,7 +368,7 @@ func init() {
 
 func init() {
 	register("C16", propMeta{
-		Explanation: staticNote + "Decides delivery/limit structure: (R1) in Downloader.LoadOnce every acquired token is released on every path or handed to the stored update's OnClose, which releases it; (R2) a replaced, not yet merged snapshot is closed; (R3) the sync loop closes every update it obtained directly after LoadOnce; (R4) a failed load sleeps (cancellable) and re-reads the newest name, and/or the receiver notifies on every change of an instance's newest name, so an older decodable snapshot is delivered when the newest is corrupt; corrupt blobs are marked only on decode errors, copied into the ignore list, which gates the listing; (R5) syncLoop returns nil only under OnlyOnce ∧ waiting set empty; instances that disappeared are removed from the waiting set; (R6) the limiter's channel capacity equals the number of tokens, Tokens are minted only after a receive, Release is idempotent; (R7) Next removes what it hands out under the lock. Further: the download token covers the whole lifetime of the compressed blob; the receiver notifies on every change of an instance's newest name (required, not only the retry); without an InstanceReady hook an instance leaves the waiting set only for a snapshot-kind update; metric label arity (R7).",
+		Explanation: staticNote + "Decides delivery/limit structure: (R1) in Downloader.LoadOnce every acquired token is released on every path or handed to the stored update's OnClose, which releases it; (R2) a replaced, not yet merged snapshot is closed; (R3) the sync loop closes every update it obtained directly after LoadOnce; (R4) a failed load sleeps (cancellable) and re-reads the newest name, and/or the receiver notifies on every change of an instance's newest name, so an older decodable snapshot is delivered when the newest is corrupt; corrupt blobs are marked only on decode errors, copied into the ignore list, which gates the listing; (R5) syncLoop returns nil only under OnlyOnce ∧ waiting set empty; instances that disappeared are removed from the waiting set; (R6) the limiter's channel capacity equals the number of tokens, Tokens are minted only after a receive, Release is idempotent; (R7) Next removes what it hands out under the lock. Further: the download token covers the whole lifetime of the compressed blob; the receiver notifies on every change of an instance's newest name (required, not only the retry); without an InstanceReady hook an instance leaves the waiting set only for a snapshot-kind update; metric label arity (R7). The unordered listing handed to CleanDisappeared is consumed only by order-independent operations; the receiver's listing and notification loops handle every element.",
 		NotDecided:  "Eventual delivery as a liveness property; relative speeds; memory actually held by decoded snapshots.",
 		Assumptions: []string{"simpleblob List/Load semantics"},
 	}, func(c *Check) {
@@ -515,7 +520,7 @@ func init() {
 
 func init() {
 	register("C17", propMeta{
-		Explanation: staticNote + "Decides lock discipline and cancellation structurally: (R1) guarded-by: every access to the fields the repository documents as mutex-protected happens with the mutex of the same object held (all functions of the concurrent packages, helpers inlined two levels so locks held by callers count); (R2) the cleaner's committed map is a private copy, never an alias of the sync loop's map; (R3) no blocking operation (channel operation without default, storage call, sleep, token acquire, publish) while a mutex is held — reports the known Publish-under-lock defect; sends to and closes of subscriber channels are serialised by the topic's mutex; (R4) nested lock acquisitions are acyclic; (R5) GetGlobal returns the storage only when non-nil and panics only if still nil after waiting; (R6) every unbounded loop of the goroutine bodies passes a cancellation point on every cycle; (R7) Token.Release is idempotent under its mutex. Further (R8-R10): static lockset over all fields of the component struct types and package-level variables — written after construction, reachable from goroutines not ordered by start-up (VTA call graph, go statements as roots) ⇒ a common lock at every access; a locally built map is not modified after publication except under the publishing lock; a function that subscribes and keeps the subscription closes it on every path out; subscriber channels are closed at most once; readiness of the global storage is a broadcast; SleepContext is a cancellation point on every path.",
+		Explanation: staticNote + "Decides lock discipline and cancellation structurally: (R1) guarded-by: every access to the fields the repository documents as mutex-protected happens with the mutex of the same object held (all functions of the concurrent packages, helpers inlined two levels so locks held by callers count); (R2) the cleaner's committed map is a private copy, never an alias of the sync loop's map; (R3) no blocking operation (channel operation without default, storage call, sleep, token acquire, publish) while a mutex is held — reports the known Publish-under-lock defect; sends to and closes of subscriber channels are serialised by the topic's mutex; (R4) nested lock acquisitions are acyclic; (R5) GetGlobal returns the storage only when non-nil and panics only if still nil after waiting; (R6) every unbounded loop of the goroutine bodies passes a cancellation point on every cycle; (R7) Token.Release is idempotent under its mutex. Further (R8-R10): static lockset over all fields of the component struct types and package-level variables — written after construction, reachable from goroutines not ordered by start-up (VTA call graph, go statements as roots) ⇒ a common lock at every access; a locally built map is not modified after publication except under the publishing lock; a function that subscribes and keeps the subscription closes it on every path out; subscriber channels are closed at most once; readiness of the global storage is a broadcast; SleepContext is a cancellation point on every path. A deferred wait for started goroutines is deferred before (runs after) the cancellation of their context; Publish reaches every subscriber.",
 		NotDecided:  "Races on memory reached through slices/maps handed between goroutines other than published maps, hand-over discipline of the snapshot message types, the command-line layer; third-party internals; the schedules themselves.",
 		Assumptions: []string{"one goroutine per started root and object (one Run per Downloader/Receiver/cleaner/sweeper); objects of the snapshot message types are owned by one goroutine at a time"},
 	}, func(c *Check) {
@@ -546,7 +551,7 @@ func init() {
 
 func init() {
 	register("C07", propMeta{
-		Explanation: staticNote + "Decides the structural conditions of a lossless, wire-compatible codec: (R1) for KV, DBI, Snapshot and Meta the (field number, wire type) tables of the generated reference schema (struct tags), of the Field* constants, of the hand-written writers (EncodeTag sites) and of the hand-written readers (switch cases with expectWT / get* helpers) are equal; (R2) the size phase of DBI.Append declares exactly what the emit phase writes and reserves exactly header+message, interpreted on the extracted events for lengths across every varint boundary, and the buffer has capacity after growth; (R3) every decode/skip call in the cursor parsers reads from the buffer sliced at the advancing cursor; (R4) unknown fields are skipped by wire type in every reader; (R5) decoders merge into their receiver and never reset it. Further (R6/R7): no encoder result aliases package-level storage; every encoder scratch buffer is at least as long as the most that can be written into it for all field lengths (linear bounds, followed into helpers, with recognition of a dominating fit test); the Append table is also evaluated at the buffer states around \"exactly enough room\"; the DBI reader reports io.EOF only at the end of the data.",
+		Explanation: staticNote + "Decides the structural conditions of a lossless, wire-compatible codec: (R1) for KV, DBI, Snapshot and Meta the (field number, wire type) tables of the generated reference schema (struct tags), of the Field* constants, of the hand-written writers (EncodeTag sites) and of the hand-written readers (switch cases with expectWT / get* helpers) are equal; (R2) the size phase of DBI.Append declares exactly what the emit phase writes and reserves exactly header+message, interpreted on the extracted events for lengths across every varint boundary, and the buffer has capacity after growth; (R3) every decode/skip call in the cursor parsers reads from the buffer sliced at the advancing cursor; (R4) unknown fields are skipped by wire type in every reader; (R5) decoders merge into their receiver and never reset it. Further (R6/R7): no encoder result aliases package-level storage; every encoder scratch buffer is at least as long as the most that can be written into it for all field lengths (linear bounds, followed into helpers, with recognition of a dominating fit test); the Append table is also evaluated at the buffer states around \"exactly enough room\"; the DBI reader reports io.EOF only at the end of the data. Every round of the KV and DBI field loops compares the cursor with the data length before the next tag is read (a message may end after any field, also an unknown one); every DBI of a snapshot is written and every field of a message is looked at; entries are decoded into a zero KV.",
 		NotDecided:  "Round-trip equality for all inputs (byte content of the emitted fields is not interpreted); the csproto decoder used for the outer message; gzip.",
 		Assumptions: []string{"csproto.EncodeTag/EncodeVarint write SizeOfVarint bytes; copy copies len(src) bytes into the reserved space"},
 	}, func(c *Check) {
@@ -565,6 +570,8 @@ func init() {
 		ruleCollectionExhausted(c, "C07-R4", "snapshot.(*Snapshot).Unmarshal", `\(\*csproto\.Decoder\)\.More@[\w~]+`, "the fields of the message", nil)
 		ruleCollectionExhausted(c, "C07-R4", "snapshot.(*Meta).Unmarshal", `\(\*csproto\.Decoder\)\.More@[\w~]+`, "the fields of the message", nil)
 		ruleEndTestEveryField(c, "C07-R4", "snapshot.(*KV).Unmarshal", "snapshot.(*DBI).indexData")
+		// a truncated or failing read of the container surfaces as an error (no silently shortened snapshot)
+		ruleErrFlow(c, "C07-R3", "snapshot.LoadData", "snapshot.(*Snapshot).Unmarshal", "snapshot.NewDBIFromData", "snapshot.(*DBI).indexData", "snapshot.(*KV).Unmarshal")
 		ruleNoReceiverReset(c, "C07-R5")
 		ruleEntryDecodedIntoZero(c, "C07-R5")
 		c.Rule("C07-R6", "OUTPUT-FRESH: encoder results do not alias package-level storage")
